@@ -258,6 +258,18 @@ def build(conn):
                 fl["s"].append(ticket_rec(idx, tickets[idx]))
             fl[rec["d"]].append(app_rec(rec["d"], rec))
             idx += 1
+        if gi == 0 and conn.get("early_data_side"):
+            # data sent before the peer's Finished: TLS 1.3 server 0.5-RTT data rides behind the server's handshake flight
+            # (flight 1); TLS <= 1.2 False Start client data rides behind the client's Finished (flight 2, full handshake)
+            side = conn["early_data_side"]
+            tgt = 1 if (ver == T.TLS13 and side == "s") else (2 if (ver != T.TLS13 and side == "c" and
+                                                                    not conn.get("resume")) else None)
+            if tgt is not None and tgt < len(flights) and not any(w.kind == "app" for w in fl["c" if side == "s" else "s"][:0]):
+                # only the leading run of that side's records may move ahead (order per direction is preserved)
+                flights[tgt][side].extend(fl[side])
+                fl[side] = []
+                if not fl["c"] and not fl["s"]:
+                    continue
         if gi == 0 and merged_first:
             # records of the side that sent the last handshake flight may ride in that flight
             last = flights[-1]
